@@ -159,9 +159,13 @@ class Live(JupyterMixin, RenderHook):
                 if self.auto_refresh and self._refresh_thread is not None:
                     self._refresh_thread.stop()
                 # allow it to fully render on the last even if overflow
+                vertical_overflow = self.vertical_overflow
                 self.vertical_overflow = "visible"
-                if not self.console.is_jupyter:
-                    self.refresh()
+                try:
+                    if not self.console.is_jupyter:
+                        self.refresh()
+                finally:
+                    self.vertical_overflow = vertical_overflow
                 if self.console.is_terminal:
                     self.console.line()
             finally:
@@ -171,6 +175,8 @@ class Live(JupyterMixin, RenderHook):
 
             if self.transient:
                 self.console.control(self._live_render.restore_cursor())
+            # the display is over: a later start() must not erase what is on the screen now
+            self._live_render._shape = None
             if self.ipy_widget is not None:  # pragma: no cover
                 if self.transient:
                     self.ipy_widget.close()
